@@ -49,6 +49,7 @@ def main(argv=None):
         if ro is not None:
             obs.append(ro)
     obs = [o for o in obs if (a.tier == "thorough" or o.tier == "quick")]
+    _attach_default_fallbacks(prop, obs)
     if a.only:
         obs = [o for o in obs if a.only in o.id]
     if a.list:
@@ -106,6 +107,36 @@ def main(argv=None):
     if undecided:
         return 2
     return 0
+
+
+_FB_CACHE = {}
+
+
+def _attach_default_fallbacks(prop, obs):
+    """every proof obligation that can end undecided (the text left the engine's fragment) hands over to a bounded oracle of the same property instead of ending the
+    run as 'undecided': obligations that name no oracle of their own get the property's native enumerations (run once per worker process, the first failure is the
+    verdict).  Lean re-checks and pure lemma obligations are left alone (they do not depend on the repository's text)."""
+    natives = [o for o in obs if o.kind == "bounded" and ("native" in o.id or o.id.endswith(".enum")) and not o.id.endswith("random.enum")]
+    natives = [o for o in natives if "native" in o.id] or natives[:2]
+    if not natives:
+        return
+
+    def run_natives():
+        if "out" not in _FB_CACHE:
+            res = None
+            n = 0
+            for o in natives:
+                r = o.run()
+                n += r.queries
+                if r.status != "bounded-pass":
+                    res = r
+                    break
+            _FB_CACHE["out"] = res or core.bounded_pass(f"{len(natives)} native enumeration(s) of the property, {n} cases", n)
+        import copy
+        return copy.copy(_FB_CACHE["out"])
+    for o in obs:
+        if o.kind in ("proof", "finite") and o.fallback is None and ".lean." not in o.id and ".lemma." not in o.id:
+            o.fallback = run_natives
 
 
 def generic_replay(path):
